@@ -203,9 +203,9 @@ def units(tier):
     us = [
         Unit("exhaustive-binary", check, count=lambda t: _space(t).total, cases=_exh, shards=(16, 32),
              space=_space(tier).describe() + " as 0/1 float64"),
-        Unit("random-binary", check, strategy=lambda: cases(12, ["bu", "bd"]), examples=(3000, 12000), shards=(8, 16)),
-        Unit("random-weighted", check, strategy=lambda: cases(10, ["wu", "wd"]), examples=(4000, 20000), shards=(8, 16)),
-        Unit("random-signed", check, strategy=lambda: cases(10, ["sign"]), examples=(2000, 10000), shards=(8, 16)),
+        Unit("random-binary", check, strategy=lambda: cases(12, ["bu", "bd"]), examples=(3000, 96000), shards=(8, 16)),
+        Unit("random-weighted", check, strategy=lambda: cases(10, ["wu", "wd"]), examples=(4000, 160000), shards=(8, 16)),
+        Unit("random-signed", check, strategy=lambda: cases(10, ["sign"]), examples=(2000, 80000), shards=(8, 16)),
     ]
     if tier == "thorough":
         us.append(Unit("sampled-digraphs-n5", check, count=lambda t: _D5.total // 8, cases=_d5, shards=(16, 32),
